@@ -26,53 +26,53 @@ package types
 //@        ite(s == "l" || s == "lin" || s == "linear", typeid(LinearMode), typeid(InvalidMode)))))
 
 //@ contract interface Modality.CanBeDownshiftedTo(self, to)
-//@   requires base(self) && base(to)
+//@   requires[C09] base(self) && base(to)
 //@   ensures C17.down: result == ge(self, to)
-//@   safety C17, C09
+//@   safety C09
 //@   pure
 
 //@ contract interface Modality.CanBeUpshiftedTo(self, to)
-//@   requires base(self) && base(to)
+//@   requires[C09] base(self) && base(to)
 //@   ensures C17.up: result == ge(to, self)
-//@   safety C17, C09
+//@   safety C09
 //@   pure
 
 //@ contract interface Modality.AllowsWeakening(self)
 //@   ensures C17.weaken: result == allowsW(self)
-//@   safety C17, C09
+//@   safety C09
 //@   pure
 
 //@ contract interface Modality.AllowsContraction(self)
 //@   ensures C17.contract: result == allowsC(self)
-//@   safety C17, C09
+//@   safety C09
 //@   pure
 
 //@ contract interface Modality.Equals(self, other)
 //@   ensures C17.equals: result == (tag(self) == tag(other))
-//@   safety C17, C09
+//@   safety C09
 //@   pure
 
 //@ contract interface Modality.Copy(self)
 //@   ensures C17.copy: result != nil && tag(result) == tag(self)
-//@   safety C17, C09
+//@   safety C09
 
 // The two non-modes panic when asked about shifts; the interface-level precondition excludes them.
 //@ contract (*InvalidMode).CanBeDownshiftedTo
-//@   unreachable
+//@   unreachable[C09]
 //@ contract (*InvalidMode).CanBeUpshiftedTo
-//@   unreachable
+//@   unreachable[C09]
 //@ contract (*UnsetMode).CanBeDownshiftedTo
-//@   unreachable
+//@   unreachable[C09]
 //@ contract (*UnsetMode).CanBeUpshiftedTo
-//@   unreachable
+//@   unreachable[C09]
 
 //@ contract StringToMode
 //@   ensures C17.spelling: result != nil && tag(result) == spellTag(toLower(input))
-//@   safety C17, C09
+//@   safety C09
 
 //@ contract DefaultMode
 //@   ensures C17.default: result != nil && is(result, ReplicableMode)
-//@   safety C17, C09
+//@   safety C09
 
 // Order laws, as lemmas over the contracts above (the methods are proved equal to ge/allowsW/allowsC).
 //@ lemma C17.refl: forall a Modality :: base(a) ==> ge(a, a)
@@ -128,10 +128,10 @@ package types
 //@    (is(t, DownType) ==> labelsOK(DownType(t).Continuation, D))
 
 //@ contract interface SessionType.checkTypeLabels(self, env)
-//@   requires shapeOK(self)
+//@   requires[C09] shapeOK(self)
 //@   ensures C10.labels: (result == nil) == labelsOK(self, dom(env))
-//@   decreases size(self)
-//@   safety C09, C10
+//@   decreases[C09] size(self)
+//@   safety C09
 
 //@ contract (*SelectLabelType).checkTypeLabels
 //@   loop 1 invariant (forall k int :: 0 <= k && k <= idx ==> labelsOK(q.Branches[k].SessionType, dom(labelledTypesEnv)))
@@ -164,12 +164,12 @@ package types
 //@ macro envEntriesOK(D Set[string], V Arr[string]LabelledType) bool = forall n string :: D[n] ==> V[n].Type != nil && V[n].Mode != nil
 
 //@ contract interface SessionType.checkTypeModalities(self, env, cur)
-//@   requires shapeOK(self)
-//@   requires cur != nil || modeOf(self) == nil
-//@   requires envEntriesOK(dom(env), vals(env))
+//@   requires[C09] shapeOK(self)
+//@   requires[C09] cur != nil || modeOf(self) == nil
+//@   requires[C09] envEntriesOK(dom(env), vals(env))
 //@   ensures C10.modes: (result == nil) == modesOK(self, dom(env), vals(env), cur)
-//@   decreases size(self)
-//@   safety C09, C10
+//@   decreases[C09] size(self)
+//@   safety C09
 
 //@ contract (*SelectLabelType).checkTypeModalities
 //@   loop 1 invariant (forall k int :: 0 <= k && k <= idx ==> modesOK(q.Branches[k].SessionType, dom(labelledTypesEnv), vals(labelledTypesEnv), currentMode))
@@ -179,10 +179,10 @@ package types
 //@ macro wfTy(t SessionType, D Set[string], V Arr[string]LabelledType) bool = labelsOK(t, D) && modesOK(t, D, V, modeOf(t))
 
 //@ contract CheckTypeWellFormedness
-//@   requires shapeOK(t)
-//@   requires envEntriesOK(dom(labelledTypesEnv), vals(labelledTypesEnv))
+//@   requires[C09] shapeOK(t)
+//@   requires[C09] envEntriesOK(dom(labelledTypesEnv), vals(labelledTypesEnv))
 //@   ensures C10.wf: (result == nil) == wfTy(t, dom(labelledTypesEnv), vals(labelledTypesEnv))
-//@   safety C09, C10
+//@   safety C09
 
 // ---- the environment built from the list of definitions, as mathematical values
 
@@ -201,7 +201,7 @@ package types
 //@   loop 1 invariant labelledTypesEnv != nil && dom(labelledTypesEnv) == defNames(typeDefs, idx + 1) && vals(labelledTypesEnv) == defVals(typeDefs, idx + 1)
 //@   loop 1 invariant (forall n string :: has(labelledTypesEnv, n) ==> (exists k int :: 0 <= k && k <= idx && typeDefs[k].Name == n && labelledTypesEnv[n].Type == typeDefs[k].SessionType && labelledTypesEnv[n].Mode == typeDefs[k].Modality))
 //@   loop 1 invariant (forall k int :: 0 <= k && k <= idx ==> has(labelledTypesEnv, typeDefs[k].Name))
-//@   safety C09, C10
+//@   safety C09
 
 //@ contract LabelledTypedExists
 //@   ensures C10.exists: result == has(labelledTypesEnv, key)
@@ -215,23 +215,23 @@ package types
 //@ macro closedEnv(D Set[string], V Arr[string]LabelledType) bool = forall n string :: D[n] ==> V[n].Type != nil && shapeOK(V[n].Type) && labelsOK(V[n].Type, D)
 
 //@ contract interface SessionType.isContractive(self, env, snapshots)
-//@   requires shapeOK(self) && snapshots != nil && labelsOK(self, dom(env)) && closedEnv(dom(env), vals(env))
+//@   requires[C09] shapeOK(self) && snapshots != nil && labelsOK(self, dom(env)) && closedEnv(dom(env), vals(env))
 //@   ensures C10.contractive: result == contractive(self, vals(env), old(dom(snapshots)))
-//@   safety C09, C10
+//@   safety C09
 
 // ---- the two entry points of the preliminary checks
 
 //@ macro uniqueNames(defs []SessionTypeDefinition) bool = forall i int, j int :: 0 <= i && i < j && j < len(defs) ==> defs[i].Name != defs[j].Name
 
 //@ contract SanityChecksType
-//@   requires defsShape(typesDefs)
-//@   requires forall k int :: 0 <= k && k < len(types) ==> types[k] != nil && shapeOK(types[k])
+//@   requires[C09] defsShape(typesDefs)
+//@   requires[C09] forall k int :: 0 <= k && k < len(types) ==> types[k] != nil && shapeOK(types[k])
 //@   ensures C10.types: (result == nil) == (forall k int :: 0 <= k && k < len(types) ==> wfTy(types[k], defNames(typesDefs, len(typesDefs)), defVals(typesDefs, len(typesDefs))))
 //@   loop 1 invariant (forall k int :: 0 <= k && k <= idx ==> wfTy(types[k], dom(labelledTypesEnv), vals(labelledTypesEnv)))
-//@   safety C09, C10
+//@   safety C09
 
 //@ contract SanityChecksTypeDefinitions
-//@   requires defsShape(typesDefs)
+//@   requires[C09] defsShape(typesDefs)
 //@   ensures C10.defs: (result == nil) == (uniqueNames(typesDefs) &&
 //@        (forall k int :: 0 <= k && k < len(typesDefs) ==> wfTy(typesDefs[k].SessionType, defNames(typesDefs, len(typesDefs)), defVals(typesDefs, len(typesDefs))) &&
 //@              contractive(typesDefs[k].SessionType, defVals(typesDefs, len(typesDefs)), emptyStrSet)))
@@ -241,7 +241,7 @@ package types
 //@   loop 1 invariant (forall s string :: has(typeDefNames, s) ==> (exists k int :: 0 <= k && k <= idx && typesDefs[k].Name == s))
 //@   loop 2 invariant (forall k int :: 0 <= k && k <= idx ==> wfTy(typesDefs[k].SessionType, dom(labelledTypesEnv), vals(labelledTypesEnv)))
 //@   loop 3 invariant (forall k int :: 0 <= k && k <= idx ==> contractive(typesDefs[k].SessionType, vals(labelledTypesEnv), emptyStrSet))
-//@   safety C09, C10
+//@   safety C09
 
 // ---- unfolding a name to its definition (termination relies on contractivity and is not proved here)
 
